@@ -263,3 +263,36 @@ Theorem count_inits_exact lines :
 Proof.
   intros Hok Hss Hsz. unfold count_inits. rewrite count_inits_lines; auto.
 Qed.
+
+(* ---- rfind (used by count_terminates, which is compared with the library but has no counting theorem yet) ---- *)
+(* what rfind_at answers: the initial value or a position (counted from i) at which pat occurs, not behind limit *)
+Lemma rfind_at_cases pat : forall s i limit best,
+  rfind_at pat s i limit best = best \/
+  exists d, (d <= length s)%nat /\ rfind_at pat s i limit best = i + N.of_nat d /\ i + N.of_nat d <= limit /\
+            is_prefix pat (skipn d s) = true.
+Proof.
+  induction s as [|x s IH]; intros i limit best; cbn [rfind_at].
+  - destruct (is_prefix pat [] && (i <=? limit)) eqn:E; [|left; reflexivity].
+    apply andb_prop in E. destruct E as [E1 E2]. apply N.leb_le in E2. right. exists 0%nat. cbn. repeat split; auto; lia.
+  - destruct (IH (i + 1) limit (if is_prefix pat (x :: s) && (i <=? limit) then i else best)) as [H|(d & Hd & Hr & Hl & Hp)].
+    + rewrite H. destruct (is_prefix pat (x :: s) && (i <=? limit)) eqn:E; [|left; reflexivity].
+      apply andb_prop in E. destruct E as [E1 E2]. apply N.leb_le in E2. right. exists 0%nat. cbn. repeat split; auto; lia.
+    + right. exists (S d). cbn [length skipn]. repeat split; auto; lia.
+Qed.
+
+(* an occurrence not behind limit is found, or a later one *)
+Lemma rfind_at_ge pat : forall s i limit best d, (d <= length s)%nat -> is_prefix pat (skipn d s) = true -> i + N.of_nat d <= limit ->
+  i + N.of_nat (length s) < npos ->
+  i + N.of_nat d <= rfind_at pat s i limit best <= limit.
+Proof.
+  induction s as [|x s IH]; intros i limit best d Hd Hp Hl Hb.
+  - cbn in Hd. assert (d = 0%nat) by lia. subst d. cbn [skipn] in Hp. cbn [rfind_at]. rewrite Hp.
+    replace (i <=? limit) with true by (symmetry; apply N.leb_le; lia). cbn [andb]. lia.
+  - cbn [rfind_at]. destruct d as [|d].
+    + cbn [skipn] in Hp. rewrite Hp. replace (i <=? limit) with true by (symmetry; apply N.leb_le; lia). cbn [andb].
+      destruct (rfind_at_cases pat s (i + 1) limit i) as [H|(d' & Hd' & Hr & Hl' & _)]; [rewrite H; lia | rewrite Hr; lia].
+    + cbn [skipn length] in *. specialize (IH (i + 1) limit (if is_prefix pat (x :: s) && (i <=? limit) then i else best) d).
+      assert (i + 1 + N.of_nat d <= rfind_at pat s (i + 1) limit (if is_prefix pat (x :: s) && (i <=? limit) then i else best) <= limit)
+        by (apply IH; auto; lia).
+      lia.
+Qed.
